@@ -135,7 +135,10 @@ class C15:
         if r < 0.84:
             return ["bell"]
         if depth < 2:
-            return ["block", [self._gen_inner(rng, t, cnt, depth + 1) for _ in range(rng.randint(1, 2))]]
+            if r < 0.92:
+                return ["block", [self._gen_inner(rng, t, cnt, depth + 1) for _ in range(rng.randint(1, 2))]]
+            # a capture nested in a capture or in a buffered block
+            return ["capture", [self._gen_inner(rng, t, cnt, depth + 1) for _ in range(rng.randint(1, 2))], None]
         return ["print", self._gen_text(rng, t, cnt), ""]
 
     def _gen_op(self, rng, t, cnt, single):
@@ -164,6 +167,13 @@ class C15:
                     rng.choice([None, None, None, "exc", "base"])]
         if r < 0.865:
             return ["block", [self._gen_inner(rng, t, cnt, 1) for _ in range(rng.randint(1, 3))]]
+        if r < 0.9 and rng.random() < 0.6:
+            # an output operation during which the file fails: either the write is refused (nothing
+            # of it reaches the file) or the write is taken and the flush after it reports an error
+            inner = self._gen_inner(rng, t, cnt, 2)
+            while inner[0] in ("bell", "capture"):
+                inner = self._gen_inner(rng, t, cnt, 2)
+            return ["ioerr", rng.choice(["write", "flush"]), inner]
         if r < 0.88:
             cnt[0] += 1
             return ["markup", "K%d_%dz [bold]b[/bold] [link=https://e.x/?a=1&b=2]l[/link] \\[esc] &lt;" % (t, cnt[0])]
@@ -310,45 +320,72 @@ class Prog:
             with con:
                 for x in op[1]:
                     self._emit(con, x)
+        elif k == "capture":
+            self._capture(con, op, nested=True)
         else:
             raise ValueError(k)
 
     def visible_since(self):
         return term.visible_text("".join(w[2] for w in self.file.writes[self.rec_start:]))
 
+    def _expected(self, ops):
+        """The bytes a capture around `ops` has to return: what each operation would have written on
+        its own, in order; a nested capture keeps its output to itself; a buffered block is its parts."""
+        out = ""
+        for x in ops:
+            if x[0] == "capture":
+                continue
+            if x[0] == "block":
+                out += self._expected(x[1])
+            else:
+                out += self.pristine.bytes(lambda c: self._emit(c, x))
+        return out
+
+    def _capture(self, con, op, nested=False):
+        self.probes["captures"] += 1
+        if nested:
+            self.probes["captures_nested"] = self.probes.get("captures_nested", 0) + 1
+        exp = self._expected(op[1])
+        for tok in TOKEN.findall(exp):
+            self.captured_tokens.add(tok)
+        n0 = len(self.file.writes)
+        me = self.sim.me().tid
+        how = op[2] if len(op) > 2 else None
+        raised = None
+        cap = con.capture()
+        try:
+            with cap:
+                for x in op[1]:
+                    self._emit(con, x)
+                if how:
+                    self.probes["captures_left_by_exception"] += 1
+                    raised = (InjectedInterrupt if how == "base" else InjectedFault)("C15")
+                    raise raised
+            if how:
+                self._v("capture", "capture-swallowed-exception", "an exception raised inside capture() did not propagate")
+        except FAULTS as e:
+            if e is not raised:
+                self._v("capture", "capture-swallowed-exception", "a different exception came out of capture()")
+        got = cap.get()
+        if seams.scrub_links(got) != seams.scrub_links(exp):
+            self._v("capture", "capture-wrong", "capture returned %r, expected %r" % (got[:200], exp[:200]))
+        if any(w[1] == me for w in self.file.writes[n0:]):
+            self._v("capture", "capture-leaked-to-file", "the capturing thread wrote to the file from inside capture()")
+
     def do(self, t, op, final=False):
         con = self.console
         k = op[0]
         if k == "capture":
-            self.probes["captures"] += 1
-            exp = ""
-            for x in op[1]:
-                exp += self.pristine.bytes(lambda c: self._emit(c, x))
-            for tok in TOKEN.findall(exp):
-                self.captured_tokens.add(tok)
-            n0 = len(self.file.writes)
+            self._capture(con, op)
+        elif k == "ioerr":
             me = self.sim.me().tid
-            how = op[2] if len(op) > 2 else None
-            raised = None
-            cap = con.capture()
+            self.file.armed[me] = op[1]
             try:
-                with cap:
-                    for x in op[1]:
-                        self._emit(con, x)
-                    if how:
-                        self.probes["captures_left_by_exception"] += 1
-                        raised = (InjectedInterrupt if how == "base" else InjectedFault)("C15")
-                        raise raised
-                if how:
-                    self._v("capture", "capture-swallowed-exception", "an exception raised inside capture() did not propagate")
-            except FAULTS as e:
-                if e is not raised:
-                    self._v("capture", "capture-swallowed-exception", "a different exception came out of capture()")
-            got = cap.get()
-            if seams.scrub_links(got) != seams.scrub_links(exp):
-                self._v("capture", "capture-wrong", "capture returned %r, expected %r" % (got[:200], exp[:200]))
-            if any(w[1] == me for w in self.file.writes[n0:]):
-                self._v("capture", "capture-leaked-to-file", "the capturing thread wrote to the file from inside capture()")
+                self._emit(con, op[2])
+            except OSError:
+                self.probes["file_%s_errors" % op[1]] = self.probes.get("file_%s_errors" % op[1], 0) + 1
+            finally:
+                self.file.armed.pop(me, None)
         elif k in ("export_text", "export_html") and not self.single and self.case.get("mt_mode") == "drain":
             self.probes["draining_exports"] = self.probes.get("draining_exports", 0) + 1
             if k == "export_text":
